@@ -402,27 +402,63 @@ func octalContinuation(p *eng.Prog, fd *eng.FuncDecl) (bool, string) {
 			})
 		}
 	}
-	if loop == nil {
-		return false, "octal escape no longer reads further digits in a bounded loop"
-	}
-	// bound: i < 2
+	var loopBody *ast.BlockStmt
 	bound := int64(-1)
-	ast.Inspect(loop.Cond, func(n ast.Node) bool {
-		if be, ok := n.(*ast.BinaryExpr); ok && be.Op == token.LSS {
-			if tv, ok := info.Types[be.Y]; ok && tv.Value != nil {
-				if k, ok := constant.Int64Val(tv.Value); ok && bound < 0 {
-					bound = k
+	if loop != nil {
+		loopBody = loop.Body
+		// bound: i < 2
+		ast.Inspect(loop.Cond, func(n ast.Node) bool {
+			if be, ok := n.(*ast.BinaryExpr); ok && be.Op == token.LSS {
+				if tv, ok := info.Types[be.Y]; ok && tv.Value != nil {
+					if k, ok := constant.Int64Val(tv.Value); ok && bound < 0 {
+						bound = k
+					}
 				}
 			}
+			return true
+		})
+	} else {
+		// the same loop written as a range over the next bytes cut to a fixed length:
+		//   following := p.data[p.pos:]; if len(following) > 2 { following = following[:2] }; for _, d := range following
+		var rng *ast.RangeStmt
+		for _, s := range clause.Body {
+			ast.Inspect(s, func(n ast.Node) bool {
+				if r, ok := n.(*ast.RangeStmt); ok && rng == nil {
+					rng = r
+				}
+				return true
+			})
 		}
-		return true
-	})
+		if rng != nil {
+			loopBody = rng.Body
+			ranged := types.ExprString(rng.X)
+			for _, s := range clause.Body {
+				ast.Inspect(s, func(n ast.Node) bool {
+					as, ok := n.(*ast.AssignStmt)
+					if !ok || len(as.Lhs) != 1 || len(as.Rhs) != 1 || types.ExprString(as.Lhs[0]) != ranged {
+						return true
+					}
+					if se, ok := as.Rhs[0].(*ast.SliceExpr); ok && se.High != nil && se.Low == nil && types.ExprString(se.X) == ranged {
+						if tv, ok := info.Types[se.High]; ok && tv.Value != nil {
+							if k, ok := constant.Int64Val(tv.Value); ok {
+								bound = k
+							}
+						}
+					}
+					return true
+				})
+			}
+		}
+	}
+	if loopBody == nil {
+		return false, "octal escape no longer reads further digits in a bounded loop"
+	}
 	if bound != 2 {
 		return false, fmt.Sprintf("octal escape reads up to %d further digits, ISO 32000 allows two", bound)
 	}
 	// the if statement that breaks: find `if <cond> { break }` and the byte variable tested
 	var stopCond ast.Expr
-	ast.Inspect(loop.Body, func(n ast.Node) bool {
+	ast.Inspect(loopBody, func(n ast.Node) bool {
 		is, ok := n.(*ast.IfStmt)
 		if !ok || stopCond != nil {
 			return true
@@ -832,6 +868,17 @@ func ruleComments(c *eng.Ctx) {
 			return true
 		})
 		if !done {
+			// any other spelling of the scan (a range over the rest of the data with a break, a helper): evaluate
+			// the code. With the byte that was compared with '%' fixed to '%', and every byte read in the region
+			// that only runs for a comment ranging over all values, the comment goes on for the values that reach
+			// the cursor increment of that region.
+			if stop, ok := commentStopSet(fn); ok {
+				d := sameByteSet(stop, eol)
+				done = true
+				c.Check(d == "", R, "contentstream.(*Parser).skipWhitespace#terminators", fd.Decl.Pos(), "comment ends at CR or LF", "content-stream comments end at a different set than {CR, LF} ("+d+"): with CR-only line endings a comment swallows the rest of the stream")
+			}
+		}
+		if !done {
 			// rewritten with a library search: look at the constant it searches for
 			stops := map[byte]bool{}
 			eng.Instrs(fn, false, func(in ssa.Instruction) {
@@ -966,4 +1013,70 @@ func localHelperBody(fd *eng.FuncDecl, x *ast.CallExpr) *ast.BlockStmt {
 		}
 	}
 	return nil
+}
+
+// commentStopSet evaluates the comment-skipping region of fn (the blocks dominated by the true edge of `c == '%'`) over
+// all byte values and returns the bytes on which the region stops advancing.
+func commentStopSet(fn *ssa.Function) (map[byte]bool, bool) {
+	var pct *ssa.BinOp
+	eng.Instrs(fn, false, func(in ssa.Instruction) {
+		if b, ok := in.(*ssa.BinOp); ok && b.Op == token.EQL && pct == nil {
+			if k, ok := eng.ConstInt(b.Y); ok && k == '%' {
+				pct = b
+			}
+		}
+	})
+	if pct == nil {
+		return nil, false
+	}
+	var top *ssa.BasicBlock
+	for _, r := range *pct.Referrers() {
+		if iff, ok := r.(*ssa.If); ok && len(iff.Block().Succs) == 2 {
+			top = iff.Block().Succs[0]
+		}
+	}
+	if top == nil || len(top.Preds) != 1 {
+		return nil, false
+	}
+	inRegion := func(b *ssa.BasicBlock) bool { return b == top || top.Dominates(b) }
+	isInner := func(v ssa.Value) bool {
+		in, ok := v.(ssa.Instruction)
+		return ok && eng.DefaultByteVar(v) && inRegion(in.Block())
+	}
+	advances := func(in ssa.Instruction) bool {
+		st, ok := in.(*ssa.Store)
+		if !ok || !inRegion(st.Block()) {
+			return false
+		}
+		b, ok := st.Val.(*ssa.BinOp)
+		if !ok || b.Op != token.ADD {
+			return false
+		}
+		k, isC := eng.ConstInt(b.Y)
+		return isC && k == 1
+	}
+	// the region must advance at all, or there is nothing to evaluate
+	any := false
+	eng.Instrs(fn, false, func(in ssa.Instruction) {
+		if advances(in) {
+			any = true
+		}
+	})
+	if !any {
+		return nil, false
+	}
+	leaf := func(v ssa.Value) (int64, bool) {
+		if v == pct.X {
+			return '%', true
+		}
+		return 0, false
+	}
+	cont := eng.ByteReachLeaf(fn, isInner, leaf, advances)
+	stop := map[byte]bool{}
+	for b := 0; b < 256; b++ {
+		if !cont[b] {
+			stop[byte(b)] = true
+		}
+	}
+	return stop, true
 }
